@@ -156,7 +156,7 @@ def _prim_choices(kind, allow_err=False, allow_fatal=False):
         A((op_scan('max', NONE), 'int'))
         A((op_scan('min', NONE, reduce=True), 'oint'))
         for r in (False, True):
-            A((op_agg('sum', r), 'int'))
+            A((op_agg('sum', r), 'any'))     # float seed: typed-state operators must not follow
             A((op_agg('max', r), 'int' if not r else 'oint'))
             A((op_agg('min', r), 'int' if not r else 'oint'))
         A((op_agg('mean', False), 'any'))
@@ -205,7 +205,7 @@ def _prim_choices(kind, allow_err=False, allow_fatal=False):
         A(({'op': 'count', 'reduce': r}, 'int'))
     A((op_scan('appendMut', ['l', []], reduce=True), 'any'))
     A((op_scan('appendNew', ['l', []]), 'any'))
-    A((op_scan('appendMut', ['l', []], seedfactory=True), 'any'))
+    A((op_scan('appendMut', ['l', []], reduce=True, seedfactory=True), 'any'))
     A((op_scan('last', NONE), kind))
     return out
 
